@@ -178,9 +178,8 @@ def run_shard(cfgs, draws, sub_seed, locale_mode=None):
     return res
 
 
+REPLAY_BY_RERUN = True     # (see runner.run_property: the recorded tier / seed workload is re-executed)
+
+
 def replay(witness):
-    res = ShardResult()
-    print(witness)
-    res.evaluations = 1
-    res.inconclusive.append("C15 witnesses are self-describing; re-run the check with the same VERIF_SEED to reproduce")
-    return res
+    raise NotImplementedError("replayed by re-running the recorded workload")
